@@ -31,11 +31,34 @@ def _v3(repo, mod):
     return replace_node(mod, s.test, "dominate_1 and dominate_2")
 
 
-@variant("C14", "front-not-removed", RK, "C14.front-shape", "ranked individuals stay in `remaining`")
+@variant("C14", "front-not-removed", RK, "C14.assignment", "ranked individuals stay in `remaining`")
 def _v4(repo, mod):
     fn = repo.func(RK, "RankBasedPreferenceSorting.compute_ranking_assignment")
-    s = find_stmt(fn, lambda s: isinstance(s, ast.For) and norm(s.iter) == "new_front")
+    s = find_stmt(fn, lambda s: isinstance(s, ast.Assign) and norm(s) == "remaining = self._without(remaining, new_front)")
     return delete_stmt(mod, s)
+
+
+@variant("C14", "ranked-removed-by-equality", RK, "C14.assignment", "list.remove takes out the first equal individual (the repaired defect)")
+def _v40(repo, mod):
+    fn = repo.func(RK, "RankBasedPreferenceSorting._without")
+    body = "remaining = list(solutions)\n        for element in front:\n            if element in remaining:\n                remaining.remove(element)\n        return remaining"
+    from sa.selftest.harness import replace_nodes
+    stmts = [s for s in fn.body if not (isinstance(s, ast.Expr) and isinstance(s.value, ast.Constant))]
+    return replace_nodes(mod, [(stmts[0], body)] + [(x, "pass") for x in stmts[1:-1]] + ([(stmts[-1], "pass")] if len(stmts) > 1 else []))
+
+
+@variant("C14", "all-equal-individuals-dropped", RK, "C14.assignment", "membership by == drops the clones of a ranked individual")
+def _v41(repo, mod):
+    fn = repo.func(RK, "RankBasedPreferenceSorting._without")
+    r = find_stmt(fn, lambda s: isinstance(s, ast.Return))
+    return replace_node(mod, r, "return [solution for solution in solutions if solution not in front]")
+
+
+@variant("C14", "twin-identity-by-is", RK, None, "identity test written with `is`")
+def _v42(repo, mod):
+    fn = repo.func(RK, "RankBasedPreferenceSorting._without")
+    r = find_stmt(fn, lambda s: isinstance(s, ast.Return))
+    return replace_node(mod, r, "return [solution for solution in solutions if not any(solution is member for member in front)]")
 
 
 @variant("C14", "singleton-front-keeps-distance", RK, "C14.distance", "early return for fronts with one member skips the reset")
